@@ -114,7 +114,8 @@ class _RaisedExc(Exception):
         self.raised = raised
 
 
-BUILTIN_EXC = {'ValueError', 'KeyError', 'TypeError', 'AttributeError', 'RuntimeError',
+BUILTIN_EXC = {'RuntimeWarning', 'UserWarning', 'DeprecationWarning', 'Warning', 'FutureWarning',
+               'ValueError', 'KeyError', 'TypeError', 'AttributeError', 'RuntimeError',
                'NotImplementedError', 'IndexError', 'Exception', 'ZeroDivisionError',
                'NameError'}
 
@@ -373,6 +374,14 @@ class Interp:
                 return res if op == 'is' else not res
             if isinstance(a, bool) or isinstance(b, bool):
                 res = a is b
+                return res if op == 'is' else not res
+            if isinstance(a, TypeOf) and isinstance(b, Builtin):
+                v = a.v
+                res = {'list': isinstance(v, ListV) and not getattr(v, 'is_array', False),
+                       'str': isinstance(v, str), 'dict': isinstance(v, DictV),
+                       'float': isinstance(v, Rat), 'int': False, 'tuple': False}.get(b.name)
+                if res is None:
+                    raise Unsupported('type() test against %s' % b.name)
                 return res if op == 'is' else not res
             # two symbolic/structured values: identity is not decidable in general
             raise Unsupported('identity test on symbolic values')
@@ -804,7 +813,7 @@ class Frame:
             return self.obj_attr(base, n.attr, n)
         if isinstance(base, ListV) and n.attr == 'T':
             return _transpose(base)
-        if isinstance(base, (ListV, Elem, Rat, DictV, str)):
+        if isinstance(base, (ListV, Elem, Rat, SumV, DictV, str)):
             return BoundNative(base, n.attr)
         if isinstance(base, Module):
             r = I.repo.lookup(base, n.attr)
@@ -1058,7 +1067,11 @@ def _as_int(v, n=None):
 def builtin_call(I, fr, name, args, kwargs, n):
     if name in ('float', 'int'):
         v = args[0]
-        if isinstance(v, (Rat, Elem, ListV, SumV)):
+        while isinstance(v, ListV) and len(v) == 1:
+            v = v.items[0]          # float() of a size-1 array is its element
+        if isinstance(v, ListV):
+            raise _RaisedExc(Raised('TypeError', n))
+        if isinstance(v, (Rat, Elem, SumV)):
             return v
         raise Unsupported('%s() of %r' % (name, v), n)
     if name == 'len':
@@ -1325,8 +1338,28 @@ def _np_prod(I, fr, args, kwargs, n):
     raise Unsupported('np.prod operand', n)
 
 
+def _np_minmax(which):
+    def h(I, fr, args, kwargs, n):
+        v = _arg(args, kwargs, 0, 'a')
+        if isinstance(v, ListV) and v.items:
+            best = v.items[0]
+            for x in v.items[1:]:
+                if I.compare('<' if which == 'min' else '>', x, best, n):
+                    best = x
+            return best
+        raise Unsupported('np.%s operand' % which, n)
+    return h
+
+
 def _identity(I, fr, args, kwargs, n):
     return args[0] if args else _arg(args, kwargs, 0, 'a')
+
+
+def _np_squeeze(I, fr, args, kwargs, n):
+    v = _arg(args, kwargs, 0, 'a')
+    while isinstance(v, ListV) and len(v) == 1:
+        v = v.items[0]
+    return v
 
 
 def _np_append(I, fr, args, kwargs, n):
@@ -1441,7 +1474,7 @@ def _is_iterable(I, fr, args, kwargs, n):
 NATIVE = {
     'numpy.array': _np_array,
     'numpy.asarray': _np_array,
-    'numpy.squeeze': _identity,
+    'numpy.squeeze': _np_squeeze,
     'numpy.ones_like': _np_like(1),
     'numpy.zeros_like': _np_like(0),
     'numpy.zeros': _np_zeros(0),
@@ -1456,6 +1489,8 @@ NATIVE = {
     'numpy.sum': _np_sum,
     'numpy.prod': _np_prod,
     'numpy.append': _np_append,
+    'numpy.min': _np_minmax('min'),
+    'numpy.max': _np_minmax('max'),
     'numpy.concatenate': _np_concatenate,
     'warnings.warn': _warn,
     'pmutt.constants.R': _c_R,
@@ -1474,6 +1509,30 @@ GLOBAL_ATTRS = {
     'numpy.double': lambda I: 'np.double',
     'pmutt.constants.Na': lambda I: I.D.sym('Na'),
 }
+
+
+class RankOrder:
+    """ordering oracle: atoms (and rational constants) are compared through an
+    assumed assignment of ranks; anything else stays undecided."""
+
+    def __init__(self, ranks):
+        self.ranks = dict(ranks)
+
+    def rank(self, r):
+        if r.is_const():
+            return None
+        if r.d.key() == nf.ONE.key() and r.n.is_monomial():
+            (k, v), = r.n.t.items()
+            if v == 1 and len(k) == 1 and k[0][1] == 1:
+                return self.ranks.get(k[0][0])
+        return None
+
+    def __call__(self, a, op, b):
+        ra, rb = self.rank(a), self.rank(b)
+        if ra is None or rb is None:
+            return None
+        return {'<': ra < rb, '<=': ra <= rb, '>': ra > rb, '>=': ra >= rb,
+                '==': ra == rb, '!=': ra != rb}[op]
 
 
 def translate(repo, qual, env_args, obj=None, order=None, interp=None):
